@@ -30,7 +30,8 @@ func c04Req(h H, rule string) (copyOnWrite, hop, xff, other string, ncases int) 
 		noBody  bool
 	}
 	var cases []cs
-	for _, conn := range []string{"", "close", "X-Foo", "X-Foo, keep-alive"} {
+	// "a|b": two Connection header lines
+	for _, conn := range []string{"", "close", "X-Foo", "X-Foo, keep-alive", "keep-alive|X-Foo"} {
 		for prior := 0; prior <= 2; prior++ {
 			for _, badAddr := range []bool{false, true} {
 				for _, noBody := range []bool{false, true} {
@@ -104,7 +105,11 @@ func c04Req(h H, rule string) (copyOnWrite, hop, xff, other string, ncases int) 
 			set("Upgrade", astr("websocket"))
 			set("X-Foo", astr("foo"))
 			if c.conn != "" {
-				set("Connection", astr(c.conn))
+				var lines []aval
+				for _, l := range strings.Split(c.conn, "|") {
+					lines = append(lines, astr(l))
+				}
+				set("Connection", lines...)
 			}
 			var pr []aval
 			for i := 0; i < c.prior; i++ {
